@@ -79,7 +79,9 @@ Definition set_coll s o ri v := mkState (st s) (marked s) (oos s) (modf s) (hp s
 Definition set_ccomm s o ri v := mkState (st s) (marked s) (oos s) (modf s) (hp s) (coll s) (upd2 (ccomm s) o ri v) (par s) (pcomm s) (fk s) (rowp s) (rowfk s) (expired s) (poison s).
 Definition set_par s o ri v := mkState (st s) (marked s) (oos s) (modf s) (hp s) (coll s) (ccomm s) (upd2 (par s) o ri v) (pcomm s) (fk s) (rowp s) (rowfk s) (expired s) (poison s).
 Definition set_pcomm s o ri v := mkState (st s) (marked s) (oos s) (modf s) (hp s) (coll s) (ccomm s) (par s) (upd2 (pcomm s) o ri v) (fk s) (rowp s) (rowfk s) (expired s) (poison s).
-Definition set_fk s o ri v := mkState (st s) (marked s) (oos s) (modf s) (hp s) (coll s) (ccomm s) (par s) (pcomm s) (upd2 (fk s) o ri v) (rowp s) (rowfk s) (expired s) (poison s).
+(* sync._populate / sync._clear write the column attribute through its impl: the object is flagged modified, which
+   matters for a child that is not part of this flush (not in the session) and is attached later *)
+Definition set_fk s o ri v := mkState (st s) (marked s) (oos s) (upd (modf s) o true) (hp s) (coll s) (ccomm s) (par s) (pcomm s) (upd2 (fk s) o ri v) (rowp s) (rowfk s) (expired s) (poison s).
 Definition set_row s o (present : bool) (v : nat -> option nat) := mkState (st s) (marked s) (oos s) (modf s) (hp s) (coll s) (ccomm s) (par s) (pcomm s) (fk s) (upd (rowp s) o present) (fun x => if Nat.eqb x o then v else rowfk s x) (expired s) (poison s).
 Definition set_expired s o v := mkState (st s) (marked s) (oos s) (modf s) (hp s) (coll s) (ccomm s) (par s) (pcomm s) (fk s) (rowp s) (rowfk s) (upd (expired s) o v) (poison s).
 Definition set_poison s := mkState (st s) (marked s) (oos s) (modf s) (hp s) (coll s) (ccomm s) (par s) (pcomm s) (fk s) (rowp s) (rowfk s) (expired s) true.
